@@ -688,3 +688,5 @@ func (a *RF) LinearIn(name string) (terms map[AtomID]*big.Rat, rest *RF, ok bool
 	}
 	return terms, &RF{N: restP, D: polyConst(big.NewRat(1, 1)), S: s}, true
 }
+
+func bigOne() *big.Rat { return big.NewRat(1, 1) }
